@@ -105,13 +105,13 @@ impl Serializer for Rec {
         Ok("unit".to_string())
     }
     fn serialize_unit_struct(self, name: &'static str) -> Result<String, RecErr> {
-        Ok(format!("unitstruct:{name}"))
+        { let _ = name; Ok("unitstruct".to_string()) }
     }
     fn serialize_unit_variant(self, _name: &'static str, idx: u32, variant: &'static str) -> Result<String, RecErr> {
         Ok(format!("variant:{idx}:{variant}"))
     }
     fn serialize_newtype_struct<T: ?Sized + Serialize>(self, name: &'static str, value: &T) -> Result<String, RecErr> {
-        Ok(format!("newtype:{name}({})", value.serialize(Rec { hr: self.hr })?))
+        { let _ = name; Ok(format!("newtype({})", value.serialize(Rec { hr: self.hr })?)) }
     }
     fn serialize_newtype_variant<T: ?Sized + Serialize>(self, _name: &'static str, idx: u32, variant: &'static str, value: &T) -> Result<String, RecErr> {
         Ok(format!("variant:{idx}:{variant}({})", value.serialize(Rec { hr: self.hr })?))
@@ -123,7 +123,7 @@ impl Serializer for Rec {
         Ok(SeqRec { hr: self.hr, head: "tuple[".into(), items: vec![], pending_key: None, tail: "]" })
     }
     fn serialize_tuple_struct(self, name: &'static str, _len: usize) -> Result<SeqRec, RecErr> {
-        Ok(SeqRec { hr: self.hr, head: format!("tuplestruct:{name}["), items: vec![], pending_key: None, tail: "]" })
+        Ok(SeqRec { hr: self.hr, head: { let _ = name; "tuplestruct[".to_string() }, items: vec![], pending_key: None, tail: "]" })
     }
     fn serialize_tuple_variant(self, _name: &'static str, idx: u32, variant: &'static str, _len: usize) -> Result<SeqRec, RecErr> {
         Ok(SeqRec { hr: self.hr, head: format!("variant:{idx}:{variant}["), items: vec![], pending_key: None, tail: "]" })
@@ -132,7 +132,7 @@ impl Serializer for Rec {
         Ok(SeqRec { hr: self.hr, head: "map{".into(), items: vec![], pending_key: None, tail: "}" })
     }
     fn serialize_struct(self, name: &'static str, _len: usize) -> Result<SeqRec, RecErr> {
-        Ok(SeqRec { hr: self.hr, head: format!("struct:{name}{{"), items: vec![], pending_key: None, tail: "}" })
+        Ok(SeqRec { hr: self.hr, head: { let _ = name; "struct{".to_string() }, items: vec![], pending_key: None, tail: "}" })
     }
     fn serialize_struct_variant(self, _name: &'static str, idx: u32, variant: &'static str, _len: usize) -> Result<SeqRec, RecErr> {
         Ok(SeqRec { hr: self.hr, head: format!("variant:{idx}:{variant}{{"), items: vec![], pending_key: None, tail: "}" })
